@@ -1,3 +1,289 @@
-/-! # C18 — (stub: property theorems go here; see docs/BUILDING.md) -/
+import PtVerif.Proofs.Fasta
+/-!
+# C18 — biomolecule sequences are the sum of their residues; FASTA reading
+
+Model: `PtVerif.Model.Fasta` (tied to fasta.py / formulas.py on every run by
+`harness/ptv/props/C18.py`: translator for the code tables, differential correspondence with
+`ptdriver fasta`, exact oracle over the residue entries of the real tables).
+
+The sequence theorems hold for *every* code table, every code string (any length) and every
+linearly ordered field of numbers; the FASTA theorems for every list of lines.  An unknown code
+(`KeyError`) is `none`.  Floating-point rounding of the sums is not covered.
+-/
 namespace PtVerif.C18
+open PtModel PtModel.Fasta
+
+variable {α : Type}
+
+/-! ## a sequence is the sum of its residues -/
+
+/-- an accepted sequence is built from the table entries of its cleaned code string; formula
+    (atom counts), cell volume, charge, mass (H form) and Dmass are the sums over those residues
+    of the residue's own value (the residue's mass being the mass of its `Molecule`) -/
+theorem sequence_is_sum [Field α] [LinearOrder α] (am : Atom → α) (t : Table α) (s : List Char)
+    (m : Mol α) (h : sequence am t s = some m) :
+    ∃ parts, lookupAll t (clean s) = some parts ∧
+      (∀ b, lookupD m.labile.atoms b = (parts.map (·.struct.cnt b)).sum) ∧
+      m.vol = (parts.map (·.vol)).sum ∧ m.charge = (parts.map (·.charge)).sum ∧
+      m.mass = (parts.map fun p => (molecule am p.struct p.vol p.charge).mass).sum ∧
+      m.dmass = (parts.map fun p => (molecule am p.struct p.vol p.charge).dmass).sum := by
+  obtain ⟨parts, hl, rfl⟩ := sequence_some am t s m h
+  refine ⟨parts, hl, ?_, sumVol_eq parts, sumCharge_eq parts, ?_, ?_⟩
+  · intro b
+    simp only [molecule]
+    rw [lookup_hill_atoms, joinStruct_cnt]
+  · rw [molecule_mass, seq_flatMass]
+    congr 1
+    apply List.map_congr_left
+    intro p _; rw [molecule_mass]
+  · rw [molecule_dmass, seq_flatMass]
+    congr 1
+    apply List.map_congr_left
+    intro p _; rw [molecule_dmass]
+
+/-- the natural formula (labile H[1] written as H) is likewise the sum of the residues' natural
+    formulas -/
+theorem natural_formula_is_sum [Field α] [LinearOrder α] (am : Atom → α) (t : Table α)
+    (s : List Char) (m : Mol α) (h : sequence am t s = some m) :
+    ∃ parts, lookupAll t (clean s) = some parts ∧
+      ∀ b, lookupD m.natural.atoms b
+        = (parts.map fun p => lookupD (molecule am p.struct p.vol p.charge).natural.atoms b).sum := by
+  obtain ⟨parts, hl, rfl⟩ := sequence_some am t s m h
+  refine ⟨parts, hl, fun b => ?_⟩
+  rw [natural_counts, seq_flatMass]
+  congr 1
+  apply List.map_congr_left
+  intro p _; rw [natural_counts]
+
+/-- a code that is not in the table makes the constructor raise (`KeyError`), and only that -/
+theorem sequence_rejects_iff_unknown_code [Field α] [LinearOrder α] (am : Atom → α) (t : Table α)
+    (s : List Char) : sequence am t s = none ↔ ∃ c ∈ clean s, t.find c = none := by
+  unfold sequence
+  rw [lookupAll_eq]
+  by_cases hall : ∀ c ∈ clean s, (t.find c).isSome
+  · rw [if_pos hall]
+    simp only [reduceCtorEq, false_iff, not_exists, not_and]
+    intro c hc hn
+    have := hall c hc
+    simp [hn] at this
+  · rw [if_neg hall]
+    simp only [true_iff]
+    push_neg at hall
+    obtain ⟨c, hc, hn⟩ := hall
+    exact ⟨c, hc, by simpa using hn⟩
+
+/-- independent of residue order: any permutation of the (cleaned) codes gives the same cell
+    volume, charge, masses, density and atom counts -/
+theorem perm_invariant [Field α] [LinearOrder α] (am : Atom → α) (t : Table α) (s s' : List Char)
+    (m : Mol α) (h : sequence am t s = some m) (hp : (clean s).Perm (clean s')) :
+    ∃ m', sequence am t s' = some m' ∧ m'.vol = m.vol ∧ m'.charge = m.charge ∧
+      m'.mass = m.mass ∧ m'.dmass = m.dmass ∧ m'.density = m.density ∧
+      ∀ b, lookupD m'.labile.atoms b = lookupD m.labile.atoms b := by
+  obtain ⟨parts, hl, rfl⟩ := sequence_some am t s m h
+  obtain ⟨parts', hl', hpp⟩ := lookupAll_perm t _ _ parts hl hp
+  refine ⟨_, sequence_of_parts am t s' parts' hl', ?_, ?_, ?_, ?_, ?_, ?_⟩
+  · show sumVol parts' = sumVol parts
+    rw [sumVol_eq, sumVol_eq]; exact ((hpp.map _).sum_eq).symm
+  · show sumCharge parts' = sumCharge parts
+    rw [sumCharge_eq, sumCharge_eq]; exact ((hpp.map _).sum_eq).symm
+  · rw [molecule_mass, molecule_mass, seq_flatMass, seq_flatMass]; exact ((hpp.map _).sum_eq).symm
+  · rw [molecule_dmass, molecule_dmass, seq_flatMass, seq_flatMass]; exact ((hpp.map _).sum_eq).symm
+  · rw [molecule_density, molecule_density, seq_flatMass, seq_flatMass, sumVol_eq, sumVol_eq,
+      (hpp.map (·.vol)).sum_eq, (hpp.map (·.struct.flatMass am)).sum_eq]
+  · intro b
+    simp only [molecule]
+    rw [lookup_hill_atoms, lookup_hill_atoms, joinStruct_cnt, joinStruct_cnt]
+    exact ((hpp.map _).sum_eq).symm
+
+/-- a permutation of a string without `*` is a permutation of its cleaned codes -/
+theorem perm_of_raw_strings (s s' : List Char) (h : '*' ∉ s) (hp : s.Perm s') :
+    (clean s).Perm (clean s') := clean_perm s s' h hp
+
+/-- everything after the first `*` is dropped and blanks are ignored -/
+theorem star_and_spaces (s t : List Char) :
+    ('*' ∉ s → clean (s ++ '*' :: t) = clean s) ∧
+    (∀ s' : List Char, s.filter notBlank = s'.filter notBlank → clean s = clean s') ∧
+    (∀ c ∈ clean s, c ≠ ' ' ∧ c ≠ '*') := by
+  refine ⟨clean_append_star s t, clean_blank_invariant s, ?_⟩
+  intro c hc
+  unfold clean at hc
+  rw [List.mem_filter] at hc
+  refine ⟨by simpa using hc.2, ?_⟩
+  have := mem_tw _ _ _ hc.1
+  simpa using this
+
+/-- … hence two strings with the same cleaned codes are the same sequence -/
+theorem sequence_depends_on_clean [Field α] [LinearOrder α] (am : Atom → α) (t : Table α)
+    (s s' : List Char) (h : clean s = clean s') : sequence am t s = sequence am t s' := by
+  unfold sequence; rw [h]
+
+/-! ## ambiguity codes -/
+
+/-- `_code_average` over `n > 0` residues: atom counts, volume and charge are the equal-weight
+    average (sum divided by `n`) of the residues' -/
+theorem average_code [Field α] [LinearOrder α] (t : Table α) (bases : List Char)
+    (f : Items α) (v c : α) (h : codeAverage t bases = some (f, v, c)) (hn : 0 < bases.length) :
+    ∃ parts, lookupAll t bases = some parts ∧
+      (∀ b, f.cnt b = (parts.map (·.struct.cnt b)).sum * (1 / (bases.length : α))) ∧
+      v = (parts.map (·.vol)).sum / (bases.length : α) ∧
+      c = (parts.map (·.charge)).sum / (bases.length : α) := by
+  unfold codeAverage at h
+  cases hl : lookupAll t bases with
+  | none => simp [hl] at h
+  | some parts =>
+    simp only [hl, gt_iff_lt, hn, if_true, Option.some.injEq, Prod.mk.injEq] at h
+    obtain ⟨rfl, rfl, rfl⟩ := h
+    refine ⟨parts, rfl, ?_, ?_, ?_⟩
+    · intro b; rw [cnt_rmulS, joinStruct_cnt]
+    · rw [sumVol_eq]
+    · rw [sumCharge_eq]
+
+/-- with no residue (`-`, `X` of the nucleotide tables) the average is the empty molecule -/
+theorem average_code_empty [Field α] [LinearOrder α] (t : Table α) :
+    codeAverage t [] = some (Items.nil, 0, 0) := by
+  simp [codeAverage, lookupAll, joinStruct, sumVol, sumCharge]
+
+/-- an averaged code is stored under its own key (and leaves the other entries alone) -/
+theorem average_is_stored (t : Table α) (c d : Char) (r : Residue α) :
+    (t.insert c r).find c = some r ∧ (c ≠ d → (t.insert c r).find d = t.find d) :=
+  ⟨Table.find_insert_self t c r, Table.find_insert_ne t c d r⟩
+
+/-! ## density -/
+
+/-- density is mass over cell volume: `density·V = 1e24·(mass/N_A)` for `V > 0`, and `0` for an
+    empty sequence (`V = 0`); the mass is that of the labile formula -/
+theorem density_is_mass_over_volume [Field α] [LinearOrder α] [IsStrictOrderedRing α]
+    (am : Atom → α) (s : Items α) (V c : α) :
+    (0 < V → (molecule am s V c).density * V = e24 * (s.flatMass am / PtGen.avogadro_number)) ∧
+    (V ≤ 0 → (molecule am s V c).density = 0) := by
+  rw [molecule_density]
+  constructor
+  · intro hV; rw [if_pos hV]; field_simp
+  · intro hV; rw [if_neg (not_lt.mpr hV)]
+
+/-! ## `aa:` / `dna:` / `rna:` prefixes -/
+
+/-- `formula("aa:<codes>")` is `Sequence(<codes>, type="aa").labile_formula`, for any code string
+    (further colons included); likewise `dna:` and `rna:` -/
+theorem prefix_eq_class (s : List Char) :
+    dispatch (['a', 'a'] ++ ':' :: s) = .seq .aa s ∧
+    dispatch (['d', 'n', 'a'] ++ ':' :: s) = .seq .dna s ∧
+    dispatch (['r', 'n', 'a'] ++ ':' :: s) = .seq .rna s := by
+  refine ⟨?_, ?_, ?_⟩ <;>
+  · unfold dispatch
+    rw [splitColon_append _ _ (by decide)]
+    simp [typeOfPrefix]
+
+/-- … and nothing else is read as a sequence -/
+theorem only_prefixes_dispatch (s r : List Char) (ty : SeqType) (h : dispatch s = .seq ty r) :
+    ∃ p, typeOfPrefix p = some ty ∧ s = p ++ ':' :: r ∧ ':' ∉ p := by
+  unfold dispatch at h
+  cases hs : splitColon s with
+  | none => simp [hs] at h
+  | some pq =>
+    obtain ⟨p, q⟩ := pq
+    simp only [hs] at h
+    cases ht : typeOfPrefix p with
+    | none => simp [ht] at h
+    | some ty' =>
+      simp only [ht, Dispatch.seq.injEq] at h
+      obtain ⟨rfl, rfl⟩ := h
+      obtain ⟨e1, e2⟩ := splitColon_some s p q hs
+      exact ⟨p, ht, e1, e2⟩
+
+/-! ## FASTA reading -/
+
+/-- one record per header line (a line that, stripped, starts with `>`), whose sequence is the
+    concatenation of the stripped lines that follow it up to the next header; lines before the
+    first header are dropped -/
+theorem readFasta_groups (pre : List (List Char)) (blocks : List (List Char × List (List Char)))
+    (hpre : ∀ l ∈ pre, headerLine l = false)
+    (hh : ∀ b ∈ blocks, headerLine b.1 = true)
+    (hb : ∀ b ∈ blocks, ∀ l ∈ b.2, headerLine l = false) :
+    readFasta (pre ++ render blocks) = blocks.map recordOf :=
+  readFasta_blocks pre blocks hpre hh hb
+
+/-- every list of lines has that shape, so the statement above covers every input -/
+theorem readFasta_covers_all_inputs (ls : List (List Char)) :
+    ∃ pre blocks, ls = pre ++ render blocks ∧ (∀ l ∈ pre, headerLine l = false) ∧
+      (∀ b ∈ blocks, headerLine b.1 = true) ∧ (∀ b ∈ blocks, ∀ l ∈ b.2, headerLine l = false) :=
+  lines_decompose ls
+
+/-- the number of records is the number of header lines -/
+theorem readFasta_one_record_per_header (ls : List (List Char)) :
+    (readFasta ls).length = (ls.filter headerLine).length := readFasta_length ls
+
+/-- typed by the file extension unless a type is given -/
+theorem type_from_extension (f : List Char) :
+    (∀ ty, guessType f (some ty) = ty) ∧
+    (endsWith f ['.', 'f', 'n', 'a'] = true ∨ endsWith f ['.', 'f', 'f', 'n'] = true →
+      guessType f none = ['d', 'n', 'a']) ∧
+    (endsWith f ['.', 'f', 'a', 'a'] = true → guessType f none = ['a', 'a']) ∧
+    (endsWith f ['.', 'f', 'r', 'n'] = true → guessType f none = ['r', 'n', 'a']) ∧
+    (endsWith f ['.', 'f', 'n', 'a'] = false → endsWith f ['.', 'f', 'f', 'n'] = false →
+      endsWith f ['.', 'f', 'r', 'n'] = false → guessType f none = ['a', 'a']) := by
+  have hdisj : ∀ (a b : List Char), a.length = b.length → a ≠ b →
+      endsWith f a = true → endsWith f b = false := by
+    intro a b hlen hne ha
+    by_contra hb
+    have hb' : endsWith f b = true := by simpa using hb
+    unfold endsWith at ha hb'
+    rw [List.isSuffixOf_iff_suffix] at ha hb'
+    rcases List.suffix_or_suffix_of_suffix ha hb' with h | h
+    · exact hne (h.eq_of_length hlen)
+    · exact hne (h.eq_of_length hlen.symm).symm
+  refine ⟨fun ty => rfl, ?_, ?_, ?_, ?_⟩
+  · rintro (h | h)
+    · simp [guessType, h]
+    · unfold guessType; simp only [h]; split <;> rfl
+  · intro h
+    have h1 := hdisj ['.', 'f', 'a', 'a'] ['.', 'f', 'n', 'a'] rfl (by decide) h
+    have h2 := hdisj ['.', 'f', 'a', 'a'] ['.', 'f', 'f', 'n'] rfl (by decide) h
+    simp [guessType, h, h1, h2]
+  · intro h
+    have h1 := hdisj ['.', 'f', 'r', 'n'] ['.', 'f', 'n', 'a'] rfl (by decide) h
+    have h2 := hdisj ['.', 'f', 'r', 'n'] ['.', 'f', 'f', 'n'] rfl (by decide) h
+    have h3 := hdisj ['.', 'f', 'r', 'n'] ['.', 'f', 'a', 'a'] rfl (by decide) h
+    simp [guessType, h, h1, h2, h3]
+  · intro h1 h2 h3
+    unfold guessType
+    simp only [h1, h2, h3]
+    split <;> simp_all
+
+/-! ## the regenerated code tables (kernel-checked on every run) -/
+
+/-- all three tables of fasta.py build (every averaged code refers to residues that exist) -/
+theorem tables_build :
+    (aaTable (α := ℚ)).isSome = true ∧ (rnaTable (α := ℚ)).isSome = true ∧
+    (dnaTable (α := ℚ)).isSome = true := by decide +kernel
+
+/-- no table formula contains tritium (the deprecated labile-hydrogen marker that
+    `Molecule.__init__` would rewrite), so the model's `molecule` applies to every entry -/
+theorem tables_have_no_tritium :
+    ∀ row ∈ PtGen.aaBase ++ PtGen.rnaBases ++ PtGen.dnaBases,
+      ∀ x ∈ row.2.2.2.1, ¬ (x.1 = 1 ∧ x.2.1 = 3) := by decide +kernel
+
+/-! ## non-vacuity -/
+
+section
+/-- unit masses, except H[1] = 1, H = 1, D = 2 -/
+private def am1 (a : Atom) : ℚ := if a = atomD then 2 else 1
+
+-- a real dipeptide "G A" from the regenerated table, with a blank and text after '*'
+example : ∃ t, aaTable (α := ℚ) = some t ∧
+    (sequence am1 t ['G', ' ', 'A', '*', 'W']).isSome = true ∧
+    ((sequence am1 t ['G', ' ', 'A', '*', 'W']).map (·.vol)) = some (664 / 10 + 915 / 10) := by
+  refine ⟨_, rfl, ?_, ?_⟩ <;> decide +kernel
+-- an unknown code is rejected
+example : ∃ t, aaTable (α := ℚ) = some t ∧ sequence am1 t ['G', 'O'] = none := by
+  refine ⟨_, rfl, ?_⟩; decide +kernel
+-- the averaged code B is stored and has half the charge of D (−1) plus N (0)
+example : ∃ t, aaTable (α := ℚ) = some t ∧ ((t.find 'B').map (·.charge)) = some (-1 / 2) := by
+  refine ⟨_, rfl, ?_⟩; decide +kernel
+-- FASTA: junk, two headers, an empty record
+example : readFasta [['j'], ['>', 'a', ' '], ['A', 'C'], [], ['G'], ['>', 'b']]
+    = [(['>', 'a'], ['A', 'C', 'G']), (['>', 'b'], [])] := by decide +kernel
+example : guessType ['x', '.', 'f', 'r', 'n'] none = ['r', 'n', 'a'] := by decide +kernel
+end
+
 end PtVerif.C18
